@@ -74,6 +74,24 @@ Proof.
 Qed.
 
 (* ------------------------------------------------------------------ *)
+(* key paths are prefix-free                                            *)
+
+(* a is a proper ancestor of b in the split tree: b was derived from a by >= 1 splits *)
+Fixpoint ancestor (a b : kpath) : Prop :=
+  match b with
+  | KRoot _ => False
+  | KSplit p _ _ => a = p \/ ancestor a p
+  end.
+
+Lemma split_root_prefix_free r n r' n' a b :
+  In a (split (KRoot r) n) -> In b (split (KRoot r') n') -> ~ ancestor a b /\ ~ ancestor b a.
+Proof.
+  unfold split. intros Ha Hb. apply in_map_iff in Ha, Hb.
+  destruct Ha as (i & <- & _). destruct Hb as (j & <- & _). cbn.
+  split; intros [H|H]; (discriminate || contradiction).
+Qed.
+
+(* ------------------------------------------------------------------ *)
 (* UniformGetClientSampler                                              *)
 
 Section GetProofs.
@@ -173,6 +191,18 @@ Proof.
   rewrite Hk, Hk'. split; [apply split_NoDup|]. split.
   - intros <-. reflexivity.
   - intros Hr k k'. apply split_roots_disjoint. exact Hr.
+Qed.
+
+(* no key handed out in any round is derived from (is an ancestor of) another one *)
+Lemma sample_keys_prefix_free r r' out out' : 0 <= n <= Z.of_nat (length fd) -> NoDup (map fst fd) ->
+  sample_at r = Some out -> sample_at r' = Some out' ->
+  forall k k', In k (map snd out) -> In k' (map snd out') -> ~ ancestor k k' /\ ~ ancestor k' k.
+Proof.
+  intros Hn Hnd E E'.
+  destruct (sample_no_repeat_subset r Hn Hnd) as (o & Eo & _ & _ & _ & _ & Hk).
+  destruct (sample_no_repeat_subset r' Hn Hnd) as (o' & Eo' & _ & _ & _ & _ & Hk').
+  rewrite E in Eo. injection Eo as <-. rewrite E' in Eo'. injection Eo' as <-.
+  rewrite Hk, Hk'. intros k k'. apply split_root_prefix_free.
 Qed.
 
 (* ---- histories ---- *)
@@ -353,3 +383,60 @@ Proof.
   - intros s ids x Hx. eapply firstn_In'; exact Hx.
   - intros s ids H. apply firstn_NoDup'. exact H.
 Qed.
+
+(* ------------------------------------------------------------------ *)
+(* the correspondence evaluates the sampler with square-and-multiply    *)
+
+Lemma fast_is_translated (rs : Z -> Z -> Z -> Z) seed r :
+  fast_random_state rs seed r = get_pseudo_random_state rs seed r.
+Proof.
+  unfold fast_random_state, get_pseudo_random_state. cbv zeta.
+  rewrite Zpow_mod_correct by (vm_compute; discriminate). reflexivity.
+Qed.
+
+Section Ext.
+Context {Id D : Type}.
+Variable id_eqb : Id -> Id -> bool.
+Variable choice : Z -> list Id -> Z -> list Id.
+Variable fd : list (Id * D).
+Variable n seed : Z.
+Variables prs1 prs2 : Z -> Z -> option Z.
+Hypothesis prs_eq : forall s r, prs1 s r = prs2 s r.
+
+Lemma sample_at_ext r : sample_at id_eqb prs1 choice fd n seed r = sample_at id_eqb prs2 choice fd n seed r.
+Proof. unfold sample_at. now rewrite prs_eq. Qed.
+
+Lemma gstep_ext st o : gstep id_eqb prs1 choice fd n seed st o = gstep id_eqb prs2 choice fd n seed st o.
+Proof. destruct o; cbn [gstep]; [now rewrite sample_at_ext|reflexivity]. Qed.
+
+Lemma outputs_ext ops : forall st,
+  outputs id_eqb prs1 choice fd n seed ops st = outputs id_eqb prs2 choice fd n seed ops st.
+Proof.
+  induction ops as [|o ops IH]; intros st; cbn [outputs]; [reflexivity|]. now rewrite gstep_ext, IH.
+Qed.
+End Ext.
+
+(* the model the correspondence runs IS the model of the theorems *)
+Lemma run_model_is_theorem_model {Id D} (id_eqb : Id -> Id -> bool) rs choice (fd : list (Id * D)) n seed ops st :
+  outputs id_eqb (fast_random_state rs) choice fd n seed ops st =
+  outputs id_eqb (get_pseudo_random_state rs) choice fd n seed ops st.
+Proof. apply outputs_ext. intros. apply fast_is_translated. Qed.
+
+
+(* ------------------------------------------------------------------ *)
+(* (T) the bodies of sample() / __init__ translated on this run are the model *)
+
+From FV Require Import gen.Gen_client_samplers_model.
+
+Lemma gen_get_sample_spec {Id D} (id_eqb : Id -> Id -> bool) prs choice (fd : list (Id * D)) n seed r :
+  get_sample_gen id_eqb prs choice fd n seed r = sample_at id_eqb prs choice fd n seed r.
+Proof. reflexivity. Qed.
+
+Lemma gen_stream_init_spec n start : stream_init_gen n start = s_init n start.
+Proof. reflexivity. Qed.
+
+Lemma gen_stream_sample_spec {C} (stream : nat -> C) n pos r :
+  s_sample stream n (pos, r) =
+  (fst (stream_take_gen stream n pos r),
+   (snd (stream_take_gen stream n pos r), match shuffled_sampler_next_round r with Some r' => r' | None => r end)).
+Proof. reflexivity. Qed.
